@@ -97,6 +97,11 @@ namespace fastscapelib
         if (m_paused)
         {
             FASTSCAPELIB_VERIF_SCHED("resume.before_notify", m_size);
+            {
+                // a worker holds the mutex from incrementing the paused count
+                // until it actually waits: do not notify in between
+                std::lock_guard<std::mutex> lk(m_cv_m);
+            }
             m_cv.notify_all();
             FASTSCAPELIB_VERIF_SCHED("resume.after_notify", m_size);
             m_paused = false;
